@@ -93,8 +93,9 @@ def run(ctx):
         body = ov.body
         vs = [c for c in body.calls() if c.best().rsplit('::', 1)[-1] == 'verify']
         rem = set()
+        from engine import gating_edges
         for c in vs:
-            rem |= track_result(body, c.dest[0], +1).success_edges
+            rem |= gating_edges(body, c.dest[0], +1, 'ok')[0]
         if vs and rem and not success_reachable(body, rem, 'ok'):
             R.ok('a', 'R1', 'OpCert::validate: Ok only after the cold key signature verified', '', ov.loc())
         else:
